@@ -157,7 +157,11 @@ def replay_cvm(ctx, metrics, c, k):
     if k % 25 == 0:
         for bad in (np.append(s, 1.5), np.append(s, -0.1), np.append(s, np.nan), np.append(s, [-0.1, 1.1]),
                     np.append(s, [-0.3, -0.1, 1.2, 1.7]), np.array([-0.1, 0.5, 1.1]), np.array([1.0000001]), np.append(s, [np.inf]),
-                    np.append(s, [-np.inf, np.inf])):
+                    np.append(s, [-np.inf, np.inf]),
+                    # the offending value in every position, alone or shielded by NaNs (a NaN compares "equal" in a sort)
+                    np.insert(s, len(s) // 2, np.nan), np.insert(np.append(s, 0.9), 1, np.nan), np.concatenate([[0.2, np.nan], [5.0], [np.nan, 0.7]]),
+                    np.concatenate([s, [np.nan, 5.0, np.nan], s]), np.concatenate([[0.3], [np.nan, -2.0, np.nan], s, [0.6]]),
+                    np.insert(np.append(s, 0.5), 1, 1.5), np.insert(np.append(s, 0.5), 1, -1e-9), np.concatenate([[np.nan], s, [np.nan]])):
             try:
                 metrics.anderson_darling_test(bad)
                 ctx.violation("ad:rejection", "data %s accepted" % bad.tolist(), case)
